@@ -125,10 +125,21 @@ def run(ctx):
         rxb[idx] ^= 1
         for Tx in (bits, np.array(bits), binary_sequence(bits)):
             ber = ook.BER_analizer("counter", Tx=Tx, Rx=binary_sequence(rxb))
-            events.append({"kind": "ber", "k": k, "n": n, "reported_ppm": int(round(float(ber) * 1e6))})
+            events.append({"kind": "ber", "k": k, "n": n, "count": int(round(float(ber) * n)), "exact": bool(abs(float(ber) * n - round(float(ber) * n)) < 1e-6)})
             meta.append(("ber", "ook", type(Tx).__name__))
+        # long sequences with many errors (counts beyond one byte), up to a fully inverted sequence
+        nl = rnd.choice([1000, 2040, 4096])
+        tx = np.random.RandomState(it).randint(0, 2, nl)
+        for kk in (0, 255, 256, 300, 512, nl // 2, nl):
+            rxl = tx.copy()
+            rxl[np.random.RandomState(kk).permutation(nl)[:kk]] ^= 1
+            for fn, tag in ((ook.BER_analizer, "ook"), (ppm.BER_analizer, "ppm")):
+                ber = fn("counter", Tx=binary_sequence(tx), Rx=binary_sequence(rxl))
+                events.append({"kind": "ber", "k": kk, "n": nl, "count": int(round(float(ber) * nl)), "exact": bool(abs(float(ber) * nl - round(float(ber) * nl)) < 1e-6)})
+                meta.append(("ber", tag, "long"))
+            ctx.case(("ber-long", kk >= 256, kk == nl))
         berp = ppm.BER_analizer("counter", Tx=bits, Rx=binary_sequence(rxb))
-        events.append({"kind": "ber", "k": k, "n": n, "reported_ppm": int(round(float(berp) * 1e6))})
+        events.append({"kind": "ber", "k": k, "n": n, "count": int(round(float(berp) * n)), "exact": bool(abs(float(berp) * n - round(float(berp) * n)) < 1e-6)})
         meta.append(("ber", "ppm", "list"))
     for it in range(48 if T else 8):
         M = [2, 4, 8, 16][it % 4]
